@@ -62,11 +62,12 @@ def build_lib(flavour):
     return d, True
 
 
-WRAPPED = ["malloc", "mmap", "mremap", "munmap", "open", "fstat", "read", "fopen", "fwrite", "fclose"]
+WRAPPED = ["malloc", "mmap", "mremap", "munmap", "open", "fstat", "read", "fopen", "fwrite", "fclose",
+           "write", "pwrite", "pread", "calloc", "realloc", "fflush", "fdopen", "ftruncate", "openat", "creat", "stat", "fread"]
 # libc functions the library may call without going through an interposer (pure / diagnostics / release of resources)
 ALLOWED = {"free", "close", "fprintf", "printf", "puts", "putchar", "perror", "strncpy", "strlen", "strcmp", "strtoul", "strtok_r", "strstr", "strncmp",
            "strchr", "strcasecmp", "__ctype_tolower_loc", "stderr", "stdout", "memset", "memcpy", "memmove", "strcpy", "tolower", "__errno_location", "fputs", "fputc", "__stack_chk_fail",
-           "memcmp", "strtol", "strncasecmp", "abort", "snprintf", "sprintf", "vfprintf", "strnlen", "__ctype_b_loc", "__ctype_toupper_loc", "toupper", "isdigit", "isalpha", "strtoull", "strtoll", "atoi"}
+           "memcmp", "strtol", "strncasecmp", "abort", "snprintf", "sprintf", "vfprintf", "strnlen", "__ctype_b_loc", "__ctype_toupper_loc", "toupper", "isdigit", "isalpha", "strtoull", "strtoll", "atoi", "lseek", "fileno", "getpagesize", "sysconf", "memchr", "strrchr", "strdup", "feof", "ferror", "fseek", "ftell", "rewind", "unlink", "remove"}
 
 
 def build_lib_fi():
